@@ -169,7 +169,7 @@ class Check:
         os.makedirs(gen, exist_ok=True)
         path = os.path.join(gen, name + ".v")
         open(path, "w").write(text)
-        p = subprocess.run(["bash", "-c", "ulimit -s unlimited 2>/dev/null; exec coqc -Q %s PsdV -Q %s PsdVGen %s" % (
+        p = subprocess.run(["bash", "-c", "ulimit -s unlimited 2>/dev/null; ulimit -v 24000000 2>/dev/null; exec coqc -Q %s PsdV -Q %s PsdVGen %s" % (
             os.path.join(COQ, "theories"), gen, path)], capture_output=True, text=True, timeout=timeout)
         ok = p.returncode == 0
         self.obligations.append(("generated-table:" + name, ok, "" if ok else (p.stderr or p.stdout)[-600:]))
@@ -186,7 +186,7 @@ class Check:
             f.write(body)
         gen = os.path.join(self.dir, "gen")
         extra = ("-Q %s PsdVGen " % gen) if os.path.isdir(gen) else ""
-        p = subprocess.run(["bash", "-c", "ulimit -s unlimited 2>/dev/null; exec coqc -Q %s PsdV %s-o %s %s" % (
+        p = subprocess.run(["bash", "-c", "ulimit -s unlimited 2>/dev/null; ulimit -v 24000000 2>/dev/null; exec coqc -Q %s PsdV %s-o %s %s" % (
             os.path.join(COQ, "theories"), extra, path[:-2] + ".vo", path)], capture_output=True, text=True, timeout=timeout)
         if p.returncode != 0:
             raise RuntimeError("coqc failed on %s: %s" % (path, (p.stderr or p.stdout)[-800:]))
